@@ -1014,7 +1014,14 @@ func dedupStrings(in []string) []string {
 
 var reLocalNames = regexp.MustCompile(`(alloc|P):[A-Za-z0-9_]+`)
 
-func normD4(k string) string { return normConstruct(reLocalNames.ReplaceAllString(k, "$1:_")) }
+var reInlTemp = regexp.MustCompile(`alloc:zzinl[0-9]+r[0-9]+\.[A-Za-z0-9_]+`)
+
+// normD4: local names, the receiver kind and — in the helper-inlined normal form — a field of an inliner result temporary
+// (the carrier struct of a split function) do not identify a site.
+func normD4(k string) string {
+	k = reInlTemp.ReplaceAllString(k, "alloc:_")
+	return normConstruct(reLocalNames.ReplaceAllString(k, "$1:_"))
+}
 
 
 // nilablePtrResult: index of a pointer-typed result for which some return of fn yields the nil constant (-1 if none).
